@@ -19,7 +19,7 @@ Notation keysN u fuel := (keys unit nc_find nc_store cfg_nc u fuel (fun _ _ => t
 (** First sentence of the property: for any graph (of the covered expressions) and ANY finite
     sequence of operations evaluated against one long-lived instance of the graph — every cache
     shared along the sequence, whatever was evaluated earlier — each evaluation (and each
-    validation and key inspection) returns the value, or fails, exactly as the same graph does
+    validation, key inspection and explanation) returns the value, or fails, exactly as the same graph does
     with caching switched off for that dictionary.  [run_hist] threads the real memo store
     through the history; [ref_op] is the cache-free reference, each operation on its own.
     Hypothesis [hist_ok]: each operation's expression is covered for the operation's dictionary
@@ -49,6 +49,15 @@ Theorem C01_one_step_simulation : forall u fuel cfg site_ok sites e (D : dict ->
   scoh u fuel sites e D -> SimAll u fuel cfg site_ok sites e D.
 Proof. exact sim_all. Qed.
 Print Assumptions C01_one_step_simulation.
+
+(** Consequently the switch configuration (labrea.cache.disabled(), labrea.logging.disabled()) and
+    the ghost oracle do not enter any result of a covered history: with caching on or off, every
+    operation answers alike (C16's value claim for the cache switch, at history level). *)
+Theorem C01_history_independent_of_switches : forall u fuel cfg1 cfg2 so1 so2 sites h,
+  hist_ok u fuel sites h ->
+  run_hist u fuel cfg1 so1 h [] = run_hist u fuel cfg2 so2 h [].
+Proof. exact history_independent_of_switches. Qed.
+Print Assumptions C01_history_independent_of_switches.
 
 (** Second sentence of the property.  A stored value can only be served for a dictionary with
     the same fingerprint as the one it was computed under; then the cache-free outcomes of the
@@ -110,7 +119,8 @@ Definition tops : list dict := [o1; o2; o3; o4].
 Definition mid (o : dict) : dict := with_opts false dflt0 o.
 Definition inner (o : dict) : dict := with_opts true pre0 (mid o).
 Definition h0 : list hop :=
-  [HEval ds0 o1; HEval ds0 o2; HKeys ds0 o2; HEval ds0 o3; HEval ds0 o4; HValidate ds0 o1; HEval ds0 o1].
+  [HEval ds0 o1; HEval ds0 o2; HKeys ds0 o2; HEval ds0 o3; HEval ds0 o4; HValidate ds0 o1; HExplain ds0 o4;
+   HEval ds0 o1].
 
 (** the dictionaries that reach the cache site are clean for the cached expression *)
 Lemma okd0 o : In o (map inner tops) -> okd u0 10 sites0 o.
@@ -137,7 +147,7 @@ Example C01_history_hypotheses_satisfiable :
   hist_ok u0 10 sites0 h0 /\
   run_hist u0 10 cfg0 (clean_at u0 10) h0 [] =
     [OEval (Ok (VJ (JInt 9))); OEval (Ok (VJ (JInt 9))); OKeys (Ok [kB; kA]); OEval (Ok (VJ (JInt 5)));
-     OEval (Ok (VJ (JInt 9))); OValidate (Ok tt); OEval (Ok (VJ (JInt 9)))].
+     OEval (Ok (VJ (JInt 9))); OValidate (Ok tt); OExplain (Ok [kA]); OEval (Ok (VJ (JInt 9)))].
 Proof.
   split; [|vm_compute; reflexivity].
   intros p Hp. unfold h0 in Hp.
